@@ -725,7 +725,7 @@ func (r *ruleState) heartbeatTasksRule(tr *TxRec, req *ReqRec, cmd *t_aio.Heartb
 		mine := t.State == 4 && sderef(t.ProcessId) == cmd.ProcessId && t.ProcessId != nil
 		want := *t
 		if mine {
-			want.ExpiresAt = cmd.Time + t.Ttl
+			want.ExpiresAt = tables.AddSat(cmd.Time, t.Ttl)
 		}
 		if !want.Eq(u) {
 			s.violate("T10.heartbeat_effect", P("C07"), "heartbeat", "heartbeat changed something other than the lease of the caller's claimed tasks", fmt.Sprintf("%s -> %s, expected %s", t, u, &want))
@@ -765,7 +765,7 @@ func (r *ruleState) heartbeatLocksRule(tr *TxRec, req *ReqRec, cmd *t_aio.Heartb
 		}
 		want := *l
 		if l.ProcessId == cmd.ProcessId {
-			want.ExpiresAt = cmd.Time + l.Ttl
+			want.ExpiresAt = tables.AddSat(cmd.Time, l.Ttl)
 		}
 		if !want.Eq(m) {
 			s.violate("T10.lock_heartbeat_effect", P("C09"), "heartbeat", "heartbeat changed something other than the lease of the caller's locks", fmt.Sprintf("%s -> %s, expected %s", l, m, &want))
